@@ -10,3 +10,5 @@ pub mod opmutate;
 pub mod opfixture;
 pub mod adversary;
 pub mod schema_ext;
+pub mod exec_ops;
+pub mod worlds;
